@@ -55,7 +55,12 @@ def run(res, replay=None):
                 r = [gens[f["right"]][k] + (f["shift"][k] if f["shift"] is not None else 0.0) for k in range(3)]
                 d = [r[k] - g[k] for k in range(3)]
                 dn = math.sqrt(dot(d, d))
-                if not (dot(n, d) > 0.999 * dn):
+                # the normal is the normalised difference of the two positions: it may deviate from the exact direction by the rounding of
+                # that difference (u M / |d| per component) and of the normalisation, nothing more
+                mco = max(max(abs(x) for x in r), max(abs(x) for x in g))
+                dev = max(abs(n[k] - d[k] / dn) for k in range(3)) if dn > 0 else 1.0
+                res.notes["max_normal_deviation_over_bound"] = max(res.notes.get("max_normal_deviation_over_bound", 0.0), dev / (1e-12 + 100 * 2.0 ** -53 * mco / dn) if dn > 0 else 0.0)
+                if not (dot(n, d) > 0.999 * dn) or dev > 1e-12 + 100 * 2.0 ** -53 * mco / dn:
                     res.violation("C04:normal-direction" + geo.mismatch_class(rec), f"face {j} (left {f['left']}, right {f['right']}, shift {f['shift']}): normal {n} does not point from the left "
                                   f"generator {g} towards the right generator {r} (cos = {dot(n, d) / dn:.6f})", fctx)
                     break
